@@ -29,6 +29,22 @@ def dropped (ivs : List Iv) (c : Comment) : Bool := ivs.any (fun i => inside i c
 def filterComments (ivs : List Iv) (cs : List Comment) : List Comment :=
   cs.filter (fun c => !dropped ivs c)
 
+/-- the extent of a top-level declaration: from its doc comment to the comments trailing its last line -/
+structure Extent where
+  s : Nat
+  e : Nat
+  deriving Repr, Inhabited, DecidableEq
+
+/-- the interval does not reach into the extent (intervals starting at NoPos are ignored by the filter) -/
+def clearOf (i : Iv) (x : Extent) : Bool := i.s == 0 || i.e ≤ x.s || x.e ≤ i.s
+
+/-- what astdiff owes the comment filter: no changed interval reaches into a declaration in which nothing was rewritten -/
+def respects (ivs : List Iv) (untouched : List Extent) : Bool := ivs.all (fun i => untouched.all (clearOf i))
+
+/-- the first (interval, extent) pair that breaks `respects`, for the replay -/
+def offender (ivs : List Iv) (untouched : List Extent) : Option (Iv × Extent) :=
+  (ivs.flatMap (fun i => untouched.map (fun x => (i, x)))).find? (fun p => !clearOf p.1 p.2)
+
 mutual
 /-- the value has no comment group anywhere -/
 def noComments : V → Bool
